@@ -21,7 +21,8 @@ vars == <<cfg, done, ok>>
 Menu == IF Family = "four"
         THEN << [M |-> 2, Lc |-> 2, Ls |-> 3], [M |-> 2, Lc |-> 3, Ls |-> 2], [M |-> 1, Lc |-> 2, Ls |-> 1] >>
         ELSE << [M |-> 2, Lc |-> 3, Ls |-> 2], [M |-> 3, Lc |-> 2, Ls |-> 4],
-                [M |-> 2, Lc |-> 4, Ls |-> 3], [M |-> 2, Lc |-> 2, Ls |-> 5] >>
+                [M |-> 2, Lc |-> 4, Ls |-> 3], [M |-> 2, Lc |-> 2, Ls |-> 5],
+                [M |-> 1, Lc |-> 3, Ls |-> 5], [M |-> 3, Lc |-> 4, Ls |-> 2] >>
 
 \* the symbolic four-index array under a transformation has (N^4 x terms) terms per entry, so the
 \* lincomb runs of the "four" family use two tiny shells (the application of U does not depend on the
